@@ -38,7 +38,24 @@ pub struct DiskScenario {
     pub crash_shape: String,
     #[serde(default)]
     pub sacrificial: bool,
+    /// a delimiter configuration outside the simulator's eight well-behaved sets (possibly an
+    /// invalid one): applied with `set_delimiters` under a panic guard; if the engine refuses it
+    /// the run goes on with the defaults
+    #[serde(default)]
+    pub odd_delims: Option<Delims>,
 }
+
+/// Two-byte strings that `set_delimiters` accepts in any position (plus a few it must refuse).
+const ODD_DELIMS: &[&str] = &[
+    "{%", "%}", "{{", "}}", "{#", "#}", "[[", "]]", "<%", "%>", "--", "- ", " -", "  ", "\n\n", "ab", "a ", "\"\"", "''", "``", "\u{e9}", "\u{a9}", "{-", "-}", "%%", "((", "))", "..", "::", "||", "~~",
+    "00", "1 ", "\\\\", "\u{0}\u{0}", "{\n", "\r\n", "-%", "%-", "{ ", " }", "+-", "-+", "\t\t", "", "{", "{{{", "\u{20ac}", "\u{1F389}",
+];
+
+/// Template names that are legal keys of the registry but awkward in lookups and error reports.
+const ODD_NAMES: &[&str] = &[
+    "", " ", "a\u{0}b", "../x", "x\ny", "x\r\ny", "{{ x }}", "{% x %}", "\u{540d}\u{524d}.html", "a\"b", "a`b'c", "\u{202e}rtl.html", "tab\tname", "%s{}{0}", "a/b/../c.html", "\u{feff}bom", "\u{301}combining",
+    "-->", "\u{1b}[31mred", "trailing.", ".", "..", "/", "\\", "C:\\x.html", "name with spaces.html",
+];
 
 /// Deep-nesting / huge-literal sources: the parser's limits, not the stack, must stop them.
 /// `depth` up to 90 goes through the full fault closure; "deep" scenarios use 100..20000 levels
@@ -220,6 +237,45 @@ pub fn generate(seed: u64, tier: &str, _property: &str) -> DiskScenario {
         // multi-byte characters right next to delimiters
         source = format!("\u{e9}{}\u{1F389}{} \"\u{e9}\u{4e2d}\" {}\u{ae}\u{a9}{}\u{e9}{}", source, delims.vs, delims.ve, delims.cs, delims.ce);
     }
+    // odd delimiter configurations: the source was generated under the run's regular set; its
+    // delimiters are rewritten textually (what the text then *means* is irrelevant: Ok or Err)
+    let mut odd_delims = None;
+    let mut base_templates = templates;
+    let mut config = config;
+    if crash_shape.is_empty() && rng.chance(1, 6) {
+        let pick = |r: &Rng| r.pick(ODD_DELIMS).to_string();
+        let mut od = Delims::new(&pick(&rng), &pick(&rng), &pick(&rng), &pick(&rng), &pick(&rng), &pick(&rng));
+        if rng.chance(1, 3) {
+            // end delimiters equal to start delimiters / to each other
+            od.be = od.bs.clone();
+            if rng.chance(1, 2) {
+                od.ve = od.vs.clone();
+                od.ce = od.cs.clone();
+            }
+        }
+        let rewrite = |t: &str| {
+            // through private-use placeholders so that replacements do not feed each other
+            let ph = ["\u{e000}", "\u{e001}", "\u{e002}", "\u{e003}", "\u{e004}", "\u{e005}"];
+            let from = [&delims.bs, &delims.be, &delims.vs, &delims.ve, &delims.cs, &delims.ce];
+            let to = [&od.bs, &od.be, &od.vs, &od.ve, &od.cs, &od.ce];
+            let mut x = t.to_string();
+            for i in 0..6 {
+                x = x.replace(from[i].as_str(), ph[i]);
+            }
+            for i in 0..6 {
+                x = x.replace(ph[i], to[i].as_str());
+            }
+            x
+        };
+        source = rewrite(&source);
+        for t in base_templates.iter_mut() {
+            t.1 = rewrite(&t.1);
+        }
+        config.delims = Delims::default();
+        odd_delims = Some(od);
+    }
+    let templates = base_templates;
+    let file_name = if rng.chance(1, 8) { rng.pick(ODD_NAMES).to_string() } else if rng.chance(1, 40) { "n".repeat(5000) } else { file_name };
     if source.len() > 700 && !few_variants {
         let mut cut = 700;
         while !source.is_char_boundary(cut) {
@@ -252,6 +308,7 @@ pub fn generate(seed: u64, tier: &str, _property: &str) -> DiskScenario {
         via_file_every: 8,
         crash_shape,
         sacrificial: false,
+        odd_delims,
     }
 }
 
@@ -269,6 +326,7 @@ fn variants_of(sc: &DiskScenario) -> Vec<(&'static str, Vec<u8>)> {
                     "bom" => "bom",
                     "crlf" => "crlf",
                     "long_line" => "long_line",
+                    "layout" => "layout",
                     _ => "original",
                 };
                 out.push((kind, crate::sval::unhex(h)));
@@ -312,6 +370,29 @@ fn variants_of(sc: &DiskScenario) -> Vec<(&'static str, Vec<u8>)> {
             let mut long = src.to_vec();
             long.extend(std::iter::repeat(b'x').take(70_000));
             out.push(("long_line", long));
+            // the same text laid out differently (what error reports have to cope with): tabs for
+            // spaces, lone CR line ends, blank lines, wide / zero-width / combining characters in
+            // the text, no trailing newline — whole and cut at a few seeded offsets so that
+            // there is an error to report
+            if let Ok(text) = std::str::from_utf8(src) {
+                let layouts: [String; 5] = [
+                    text.replace(' ', "\t"),
+                    text.replace('\n', "\r"),
+                    text.replace('\n', "\n\n\n"),
+                    text.replace('a', "\u{ff41}").replace('e', "e\u{301}").replace(' ', " \u{200b}"),
+                    format!("\n\n{}", text.trim_end()),
+                ];
+                for l in layouts.iter() {
+                    out.push(("layout", l.as_bytes().to_vec()));
+                    for _ in 0..3 {
+                        let mut n = rng.below(l.len().max(1));
+                        while !l.is_char_boundary(n) {
+                            n -= 1;
+                        }
+                        out.push(("layout", l.as_bytes()[..n].to_vec()));
+                    }
+                }
+            }
             let mut nuls = src.to_vec();
             nuls.extend_from_slice(&[0, 0, 0, 0]);
             out.push(("nul_fill", nuls));
@@ -363,6 +444,25 @@ pub fn execute(sc: &DiskScenario, stats: &mut Stats) -> Outcome {
     }
     ahash::sim::reset(Mode::PerInstance, sc.hash_base);
     let mut base = new_tera(&sc.config);
+    if let Some(od) = &sc.odd_delims {
+        stats.inc("fault_configured_odd_delimiters");
+        match catch(|| base.set_delimiters(od.to_tera())) {
+            Err(p) => {
+                out.violations.push(Violation::new("C06", "panic-in-set_delimiters", format!("{:?}: {}", od, p)));
+                return out;
+            }
+            Ok(Err(e)) => {
+                let _ = format!("{} {:?}", e, e);
+                stats.inc("odd_delimiters_refused");
+            }
+            Ok(Ok(())) => {
+                stats.inc("fault_fired_odd_delimiters");
+                if od.bs == od.be || od.vs == od.ve || od.cs == od.ce {
+                    stats.inc("probe_start_delimiter_equals_end_delimiter");
+                }
+            }
+        }
+    }
     stats.inc("corpus_files");
     if base.add_raw_templates(sc.base.iter().map(|(n, s)| (n.as_str(), s.as_str()))).is_err() {
         stats.inc("worlds_rejected");
@@ -396,7 +496,7 @@ pub fn execute(sc: &DiskScenario, stats: &mut Stats) -> Outcome {
         if as_str.is_none() {
             stats.inc("probe_variant_not_utf8");
         }
-        let via_file = as_str.is_none() || vi % sc.via_file_every.max(1) == 0 || matches!(kind, "bom" | "crlf" | "long_line");
+        let via_file = as_str.is_none() || vi % sc.via_file_every.max(1) == 0 || matches!(kind, "bom" | "crlf" | "long_line") || (kind == "layout" && vi % 2 == 0);
         engine::set_step_limit(engine::steps() + budget);
         let res: Result<Result<(), tera::Error>, String> = if via_file {
             std::fs::write(&path, &bytes).expect("tmpfs write");
